@@ -793,17 +793,79 @@ def nonSelected (set : List String) (l : AL Svc) : List String := (l.filter (fun
 def selectedPruned (set : List String) (l : AL Svc) : AL Svc :=
   (l.filter (fun kv => kv.1 ∈ set)).map (fun kv => (kv.1, pruneDeps set kv.2))
 
-theorem selectFold_eq (set : List String) (l : AL Svc) (c : Proj) (e : AL Svc) :
-    l.foldl (selectStep set) (c, e) =
+theorem selectFoldPre_eq (set : List String) (l : AL Svc) (c : Proj) (e : AL Svc) :
+    l.foldl (selectStepPre set) (c, e) =
       (withServicesDisabled c (nonSelected set l), insertAll (selectedPruned set l) e) := by
   induction l generalizing c e with
   | nil => rfl
   | cons hd t ih =>
     simp only [List.foldl_cons, ih]
-    unfold selectStep
+    unfold selectStepPre
     by_cases h : hd.1 ∈ set
     · simp [h, nonSelected, selectedPruned, insertAll]
     · simp [h, nonSelected, selectedPruned, withServicesDisabled]
+
+theorem selectFold_eq (set : List String) (l : AL Svc) (u : List String) (e : AL Svc) :
+    l.foldl (selectStep set) (u, e) = (u ++ nonSelected set l, insertAll (selectedPruned set l) e) := by
+  induction l generalizing u e with
+  | nil => simp [nonSelected, selectedPruned, insertAll]
+  | cons hd t ih =>
+    simp only [List.foldl_cons, ih]
+    unfold selectStep
+    by_cases h : hd.1 ∈ set
+    · simp [h, nonSelected, selectedPruned, insertAll]
+    · simp [h, nonSelected, selectedPruned]
+
+/-! ### `sort.Strings` -/
+
+theorem insertName_perm (x : String) (l : List String) : (insertName x l).Perm (x :: l) := by
+  induction l with
+  | nil => exact .refl _
+  | cons y ys ih =>
+    unfold insertName
+    split
+    · exact .refl _
+    · exact ((List.Perm.cons y ih).trans (List.Perm.swap x y ys))
+
+theorem sortNames_perm (l : List String) : (sortNames l).Perm l := by
+  induction l with
+  | nil => exact .refl _
+  | cons x xs ih => exact (insertName_perm x _).trans (List.Perm.cons x ih)
+
+theorem mem_sortNames {x : String} {l : List String} : x ∈ sortNames l ↔ x ∈ l := (sortNames_perm l).mem_iff
+
+theorem insertName_sorted (x : String) {l : List String} (h : l.Pairwise (· ≤ ·)) :
+    (insertName x l).Pairwise (· ≤ ·) := by
+  induction l with
+  | nil => simp [insertName]
+  | cons y ys ih =>
+    rw [List.pairwise_cons] at h
+    unfold insertName
+    split
+    · rename_i hxy
+      refine List.pairwise_cons.2 ⟨fun z hz => ?_, List.pairwise_cons.2 h⟩
+      rcases List.mem_cons.1 hz with e | e
+      · exact e ▸ hxy
+      · exact String.le_trans hxy (h.1 z e)
+    · rename_i hxy
+      have hyx : y ≤ x := (String.le_total x y).resolve_left hxy
+      refine List.pairwise_cons.2 ⟨fun z hz => ?_, ih h.2⟩
+      rcases List.mem_cons.1 ((insertName_perm x ys).mem_iff.1 hz) with e | e
+      · exact e ▸ hyx
+      · exact h.1 z e
+
+theorem sortNames_sorted (l : List String) : (sortNames l).Pairwise (· ≤ ·) := by
+  induction l with
+  | nil => exact List.Pairwise.nil
+  | cons x xs ih => exact insertName_sorted x ih
+
+/-- the sorted list only depends on the multiset of names -/
+theorem sortNames_eq_of_perm {l l' : List String} (h : l.Perm l') : sortNames l = sortNames l' :=
+  List.Perm.eq_of_pairwise (fun _ _ _ _ h1 h2 => String.le_antisymm h1 h2) (sortNames_sorted l) (sortNames_sorted l')
+    ((sortNames_perm l).trans (h.trans (sortNames_perm l').symm))
+
+/-- the names handed to `WithServicesDisabled` by `WithSelectedServices` -/
+def unselected (set : List String) (l : AL Svc) : List String := sortNames (nonSelected set l)
 
 theorem keys_selectedPruned (set : List String) (l : AL Svc) :
     keys (selectedPruned set l) = keys (l.filter (fun kv => kv.1 ∈ set)) := by
@@ -811,14 +873,29 @@ theorem keys_selectedPruned (set : List String) (l : AL Svc) :
 
 /-- what `WithSelectedServices` returns once the walk has produced `set` -/
 def selectResult (p : Proj) (set : List String) : Proj :=
+  { withServicesDisabled p (unselected set p.services) with services := selectedPruned set p.services }
+
+/-- what it returned before the `fix:` commit -/
+def selectResultPre (p : Proj) (set : List String) : Proj :=
   { withServicesDisabled p (nonSelected set p.services) with services := selectedPruned set p.services }
+
+theorem withSelectedServicesPre_ok {p : Proj} (h : (keys p.services).Nodup) {names : List String} {pol : Policy}
+    {set : List String} (hn : names ≠ []) (hw : forEachService p names pol = .ok set) :
+    withSelectedServicesPre p names pol = .ok (selectResultPre p set) := by
+  unfold withSelectedServicesPre
+  have : names.isEmpty = false := by cases names <;> simp_all
+  simp only [this, Bool.false_eq_true, if_false, hw, selectFoldPre_eq]
+  rw [insertAll_append]
+  · rfl
+  · rw [keys_selectedPruned]; exact nodup_filter h
+  · simp
 
 theorem withSelectedServices_ok {p : Proj} (h : (keys p.services).Nodup) {names : List String} {pol : Policy}
     {set : List String} (hn : names ≠ []) (hw : forEachService p names pol = .ok set) :
     withSelectedServices p names pol = .ok (selectResult p set) := by
   unfold withSelectedServices
   have : names.isEmpty = false := by cases names <;> simp_all
-  simp only [this, Bool.false_eq_true, if_false, hw, selectFold_eq]
+  simp only [this, Bool.false_eq_true, if_false, hw, selectFold_eq, List.nil_append]
   rw [insertAll_append]
   · rfl
   · rw [keys_selectedPruned]; exact nodup_filter h
@@ -1117,6 +1194,10 @@ theorem mem_nonSelected {set : List String} {l : AL Svc} {x : String} :
   · rintro ⟨⟨k, v⟩, ⟨hm, hs⟩, rfl⟩; exact ⟨⟨v, hm⟩, hs⟩
   · rintro ⟨⟨v, hm⟩, hs⟩; exact ⟨(x, v), ⟨hm, hs⟩, rfl⟩
 
+theorem mem_unselected {set : List String} {l : AL Svc} {x : String} :
+    x ∈ unselected set l ↔ x ∈ keys l ∧ x ∉ set := by
+  unfold unselected; rw [mem_sortNames, mem_nonSelected]
+
 theorem mem_keys_selectedPruned {set : List String} {l : AL Svc} {x : String} :
     x ∈ keys (selectedPruned set l) ↔ x ∈ keys l ∧ x ∈ set := by
   rw [keys_selectedPruned, mem_keys_filter, mem_keys]
@@ -1142,25 +1223,25 @@ variable {p : Proj} (h : Partition p) {set : List String} (hsub : ∀ x ∈ set,
 include h hsub
 
 theorem selectResult_partition : Partition (selectResult p set) := by
-  have hr := withServicesDisabled_partition h (nonSelected set p.services)
+  have hr := withServicesDisabled_partition h (unselected set p.services)
   refine ⟨?_, hr.2.1, fun k hk hd => ?_⟩
   · show (keys (selectedPruned set p.services)).Nodup
     rw [keys_selectedPruned]; exact nodup_filter h.1
   · have hk' : k ∈ keys (selectedPruned set p.services) := hk
     rw [mem_keys_selectedPruned] at hk'
-    have hd' : k ∈ keys (withServicesDisabled p (nonSelected set p.services)).disabled := hd
+    have hd' : k ∈ keys (withServicesDisabled p (unselected set p.services)).disabled := hd
     rw [mem_keys_withServicesDisabled_disabled] at hd'
     rcases hd' with a | ⟨a, _⟩
     · exact h.2.2 k hk'.1 a
-    · exact (mem_nonSelected.1 a).2 hk'.2
+    · exact (mem_unselected.1 a).2 hk'.2
 
 theorem selectResult_carried (w : SvcWF p) : Carried p (selectResult p set) := by
   intro k
-  have hc := (withServicesDisabled_inv h w (nonSelected set p.services)).2.2 k
+  have hc := (withServicesDisabled_inv h w (unselected set p.services)).2.2 k
   have fq : find (selectResult p set) k =
       match lookup k (selectedPruned set p.services) with
       | some s => some s
-      | none => lookup k (withServicesDisabled p (nonSelected set p.services)).disabled := rfl
+      | none => lookup k (withServicesDisabled p (unselected set p.services)).disabled := rfl
   rw [fq, lookup_selectedPruned h.1]
   by_cases hk : k ∈ set
   · obtain ⟨s, hs⟩ := Option.isSome_iff_exists.1 (lookup_isSome.2 (hsub k hk))
@@ -1168,12 +1249,12 @@ theorem selectResult_carried (w : SvcWF p) : Carried p (selectResult p set) := b
     simp only [hk, if_true, hs, Option.map_some, fp, optRel]
     exact svcLe_pruneDeps (svcWF_of_find w fp) set
   · simp only [hk, if_false]
-    have : lookup k (withServicesDisabled p (nonSelected set p.services)).services = none := by
+    have : lookup k (withServicesDisabled p (unselected set p.services)).services = none := by
       rw [lookup_withServicesDisabled_services]
       split
       · rfl
       · rename_i hn
-        have : k ∉ keys p.services := fun c => hn (mem_nonSelected.2 ⟨c, hk⟩)
+        have : k ∉ keys p.services := fun c => hn (mem_unselected.2 ⟨c, hk⟩)
         rw [lookup_eq_none.2 this]; rfl
     unfold find at hc
     rw [this] at hc
@@ -1471,5 +1552,126 @@ theorem missingFatal_top (svcs : AL Svc) (n : String) : missingFatal svcs [] n =
   unfold missingFatal has
   simp only [lookup, Bool.and_true, Bool.not_eq_true', ← lookup_isSome]
   cases (lookup n svcs).isSome <;> simp
+
+/-! ## the service moved by `WithServicesDisabled` -/
+
+theorem dropDep_eq (n : String) (s : Svc) : dropDep n s = dropDeps [n] s := by
+  unfold dropDep dropDeps
+  rw [erase_eq_filter]
+  congr 1
+  apply List.filter_congr
+  intro d _
+  simp
+
+theorem dropDeps_dropDep (n : String) (ns : List String) (s : Svc) :
+    dropDeps ns (dropDep n s) = dropDeps (n :: ns) s := by
+  simp only [dropDeps, dropDep, erase_eq_filter, List.filter_filter]
+  congr 1
+  apply List.filter_congr
+  intro d _
+  simp only [List.mem_cons, not_or, ne_eq, decide_not, Bool.decide_and, Bool.and_comm]
+
+/-- a service moved to the disabled set has lost its dependencies on the names listed up to (and including) itself -/
+theorem lookup_withServicesDisabled_moved {p : Proj} {names : List String} {x : String}
+    (hx : x ∈ keys p.services) (hn : x ∈ names) :
+    lookup x (withServicesDisabled p names).disabled = (lookup x p.services).map (dropDeps (upTo x names)) := by
+  unfold withServicesDisabled
+  induction names generalizing p with
+  | nil => cases hn
+  | cons n ns ih =>
+    simp only [List.foldl_cons]
+    by_cases e : n = x
+    · subst e
+      have hk : n ∉ keys (disableOne p n).services := fun c => (mem_keys_disableOne_services.1 c).2 rfl
+      have := lookup_withServicesDisabled_disabled_old (p := disableOne p n) ns hk
+      unfold withServicesDisabled at this
+      rw [this, lookup_disableOne_disabled]
+      simp only [hx, and_self, if_true, upTo]
+      cases lookup n p.services with
+      | none => rfl
+      | some s => simp [dropDep_eq]
+    · have hx' : x ∈ keys (disableOne p n).services := mem_keys_disableOne_services.2 ⟨hx, fun c => e c.symm⟩
+      have hn' : x ∈ ns := by
+        rcases List.mem_cons.1 hn with c | c
+        · exact absurd c.symm e
+        · exact c
+      rw [ih hx' hn', lookup_disableOne_services]
+      simp only [upTo, if_neg e, if_neg (fun c : x = n => e c.symm)]
+      cases lookup x p.services with
+      | none => rfl
+      | some s => simp [dropDeps_dropDep]
+
+theorem withServicesDisabled_movedSpec {p : Proj} (h : Partition p) (names : List String) :
+    DisableMovedSpec p names (withServicesDisabled p names) := by
+  intro kv hkv hx
+  have hq := withServicesDisabled_partition h names
+  have hl := lookup_of_mem hq.2.1 (show (kv.1, kv.2) ∈ _ from hkv)
+  have hn : kv.1 ∈ names := by
+    rcases mem_keys_withServicesDisabled_disabled.1 (mem_keys_of_mem hkv) with a | a
+    · exact absurd a (h.2.2 _ hx)
+    · exact a.1
+  rw [lookup_withServicesDisabled_moved hx hn] at hl
+  cases hs : lookup kv.1 p.services with
+  | none => simp [hs] at hl
+  | some s =>
+    simp only [hs, Option.map_some, Option.some.injEq] at hl
+    show kv.2 = _
+    rw [← hl]; rfl
+
+theorem mem_upTo_sorted {x y : String} {l : List String} (hs : l.Pairwise (· ≤ ·)) (nd : l.Nodup) (hx : x ∈ l) :
+    y ∈ upTo x l ↔ y ∈ l ∧ y ≤ x := by
+  induction l with
+  | nil => cases hx
+  | cons n ns ih =>
+    rw [List.pairwise_cons] at hs
+    rw [List.nodup_cons] at nd
+    unfold upTo
+    by_cases e : n = x
+    · subst e
+      simp only [if_true, List.mem_cons, List.not_mem_nil, or_false]
+      constructor
+      · rintro rfl; exact ⟨.inl rfl, String.le_refl _⟩
+      · rintro ⟨a | a, b⟩
+        · exact a
+        · have := String.le_antisymm b (hs.1 y a)
+          exact absurd (this ▸ a) nd.1
+    · have hx' : x ∈ ns := by
+        rcases List.mem_cons.1 hx with c | c
+        · exact absurd c.symm e
+        · exact c
+      simp only [if_neg e, List.mem_cons, ih hs.2 nd.2 hx']
+      constructor
+      · rintro (rfl | ⟨a, b⟩)
+        · exact ⟨.inl rfl, hs.1 x hx'⟩
+        · exact ⟨.inr a, b⟩
+      · rintro ⟨rfl | a, b⟩
+        · exact .inl rfl
+        · exact .inr ⟨a, b⟩
+
+theorem nodup_nonSelected {set : List String} {l : AL Svc} (nd : (keys l).Nodup) : (nonSelected set l).Nodup := by
+  have : nonSelected set l = keys (l.filter (fun kv => kv.1 ∉ set)) := rfl
+  rw [this]; exact nodup_filter nd
+
+theorem selectResult_movedSpec {p : Proj} (h : Partition p) (set : List String) :
+    SelectMovedSpec p set (selectResult p set) := by
+  intro kv hkv hx
+  have hm := withServicesDisabled_movedSpec h (unselected set p.services) kv hkv hx
+  have hn : kv.1 ∈ unselected set p.services := by
+    rcases mem_keys_withServicesDisabled_disabled.1 (mem_keys_of_mem (show kv ∈ (withServicesDisabled p _).disabled from hkv)) with a | a
+    · exact absurd a (h.2.2 _ hx)
+    · exact a.1
+  cases hs : lookup kv.1 p.services with
+  | none => simp [hs, sat] at hm
+  | some s =>
+    simp only [hs, sat] at hm ⊢
+    rw [hm]
+    congr 1
+    apply List.filter_congr
+    intro d _
+    have srt : (unselected set p.services).Pairwise (· ≤ ·) := sortNames_sorted _
+    have ndp : (unselected set p.services).Nodup :=
+      (sortNames_perm _).nodup_iff.2 (nodup_nonSelected h.1)
+    have := mem_upTo_sorted (y := d.1) srt ndp hn
+    simp only [this, mem_unselected, and_assoc]
 
 end CV.Sel
